@@ -104,6 +104,96 @@ inline EffSwap effSwap(const World& w, const std::string& path) {
   return e;
 }
 
+inline std::string faultOf(const Cg& c, const std::string& f) {
+  auto it = c.faults.find(f);
+  return it == c.faults.end() ? std::string() : it->second;
+}
+
+// Per-file faults (absent | empty | unreadable): the statistics read from
+// that file are unavailable (null). Where the code's answer for an empty
+// file is a defensible value rather than "unavailable" (memory.oom.group,
+// cgroup.stat, the memory.stat map itself) the field is a don't-care.
+// Derived values whose formula mixes several cgroups' files (protection) are
+// don't-cares as soon as any of their inputs is faulted anywhere.
+inline void applyFaults(Json::Value& e, const World& w, const std::string& path) {
+  const Cg* c = w.find(path);
+  bool root = path.empty();
+  auto null = [&](const char* k) { e[k] = Json::Value(); };
+  auto dc = [&](const char* k) { e[k] = "dontcare"; };
+  std::string m;
+  if (!(m = faultOf(*c, "memory.stat")).empty()) {
+    if (m == "empty") {
+      dc("memory_stat");
+    } else {
+      null("memory_stat");
+    }
+    for (const char* k : {"anon_usage", "file_usage", "shmem_usage", "pg_scan_cumulative", "pg_scan_rate"}) null(k);
+  }
+  if (!(m = faultOf(*c, "io.stat")).empty() && m != "empty") {
+    null("io_stat");
+    null("io_cost_cumulative");
+    null("io_cost_rate");
+  }
+  if (!(m = faultOf(*c, "cgroup.stat")).empty()) {
+    if (m == "empty") {
+      dc("nr_dying_descendants");
+    } else {
+      null("nr_dying_descendants");
+    }
+  }
+  bool protFault = false;
+  for (auto& x : w.cgs)
+    if (!x.path.empty())
+      for (const char* f : {"memory.current", "memory.min", "memory.low"})
+        if (!faultOf(x, f).empty()) protFault = true;
+  if (protFault) {
+    dc("memory_protection");
+    dc("effective_usage");
+  }
+  if (root) return;
+  if (!faultOf(*c, "memory.pressure").empty()) {
+    null("mem_pressure");
+    null("mem_pressure_some");
+  }
+  if (!faultOf(*c, "io.pressure").empty()) {
+    null("io_pressure");
+    null("io_pressure_some");
+  }
+  if (!faultOf(*c, "memory.current").empty()) {
+    for (const char* k : {"current_usage", "average_usage", "memory_growth", "effective_usage"}) null(k);
+  }
+  if (!faultOf(*c, "memory.swap.current").empty()) null("swap_usage");
+  if (!faultOf(*c, "memory.swap.max").empty()) null("swap_max");
+  if (!faultOf(*c, "memory.low").empty()) null("memory_low");
+  if (!faultOf(*c, "memory.min").empty()) null("memory_min");
+  if (!faultOf(*c, "memory.high").empty()) null("memory_high");
+  if (!faultOf(*c, "memory.max").empty()) null("memory_max");
+  if (!faultOf(*c, "memory.high.tmp").empty()) null("memory_high_tmp");
+  if (!faultOf(*c, "cgroup.events").empty()) null("is_populated");
+  if (!(m = faultOf(*c, "memory.oom.group")).empty()) {
+    if (m == "empty") {
+      dc("oom_group");
+    } else {
+      null("oom_group");
+    }
+  }
+  // effective swap values: unavailable below the first ancestor whose own
+  // swap files are unavailable
+  auto comps = vpm::splitPath(path);
+  bool maxF = false, curF = false;
+  for (size_t i = 1; i <= comps.size(); i++) {
+    const Cg* a = w.find(vpm::joinPath(comps, i));
+    if (!a) break;
+    if (!faultOf(*a, "memory.swap.max").empty()) maxF = true;
+    if (!faultOf(*a, "memory.swap.current").empty()) curF = true;
+  }
+  if (maxF) null("effective_swap_max");
+  if (maxF || curF) {
+    null("effective_swap_free");
+    dc("effective_swap_util_pct");
+  }
+}
+
 struct Hist { // what the implementation remembered from the previous tick
   bool have{false};
   Json::Value prev; // previous observation of the same cgroup identity
@@ -117,7 +207,11 @@ inline Json::Value expectCg(
     const Hist& h,
     uint64_t inode) {
   Json::Value e(Json::objectValue);
-  const Cg* c = w.find(path);
+  const Cg* c0 = w.find(path);
+  Cg ccopy = *c0;
+  // an empty io.stat is a valid file: a cgroup that has done no io
+  if (faultOf(ccopy, "io.stat") == "empty") ccopy.io_stat.clear();
+  const Cg* c = &ccopy;
   bool root = path.empty();
   SysCtx sys = sysOf(w);
   Json::Value kids(Json::arrayValue);
@@ -231,6 +325,7 @@ inline Json::Value expectCg(
   e["file_usage"] = file >= 0 ? J(file) : Json::Value();
   e["shmem_usage"] = shmem >= 0 ? J(shmem) : Json::Value();
   e["effective_usage"] = (double)((long double)cur - std::floor(protection(w, path, rootCur)));
+  applyFaults(e, w, path);
   return e;
 }
 
